@@ -96,3 +96,23 @@ def _(E, m, a, c0):
 def _(E, m, a, c0):
     x = a[0]
     return x.fields[0] if x.variant == 'Some' else opt()
+
+# ------------------------------------------------------------------ lazy_static character sets (lex.rs: OPERATOR_SYMBOLS): the set of characters spelled in the source
+from .iters import pfirst as _pfirst
+import os as _os
+def _charset_from_source(name):
+    from lib.common import REPO
+    for fn in ('lex.rs', 'core.rs', 'lib.rs'):
+        try: src = open(_os.path.join(REPO, 'src', fn), encoding='utf-8').read()
+        except OSError: continue
+        m = re.search(r'static ref ' + name + r': HashSet<char> = "((?:[^"\\]|\\.)*)"', src)
+        if m: return sorted(set(ord(ch) for ch in m.group(1)))
+    raise Missing(f'lazy_static {name}: definition not found in the source')
+@_pfirst(r'<(?:[\w:<>\']*::)?(OPERATOR_SYMBOLS) as Deref>::deref')
+def _(E, m, a, c0): return Ref(Cell(Adt('CharSet', None, [_charset_from_source(m.group(1))])))
+@_pfirst(r'(?:std::collections::)?(?:hash_set::)?HashSet::<char>::contains(?:::<char>)?|(?:std::collections::)?(?:hash_set::)?HashSet::contains')
+def _(E, m, a, c0):
+    v = E.deref(a[0])
+    if not (isinstance(v, Adt) and v.ty == 'CharSet'): return NotImplemented
+    c = E.deref(a[1])
+    return z3.Or(*[c == k for k in v.fields[0]])
